@@ -84,9 +84,11 @@ inductive Prim where
   | restorePJ                    -- p_jh := sync_pj
   | advT (τ : Coef)              -- r->t += τ
   | sabaInit (corr : Bool)       -- gravity := JACOBI (correctors) | gravity_ignore_terms := 1  (saba.c:226-232)
-  | posJacobiAll                 -- jacobi_to_inertial_pos with N_active := N   (saba.c)
-  | jacAccAll                    -- inertial_to_jacobi_acc with N_active := N   (saba.c)
-  | toInertialAll                -- jacobi_to_inertial_posvel with N_active := N (saba.c:287)
+  -- the transformation calls of integrator_saba.c: as found they pass `N_active := N`, after
+  -- fix 6fff6ab the same split as the forward transformation; rv/c09.py reads which from the source
+  | posJacobiAll                 -- jacobi_to_inertial_pos   (saba.c)
+  | jacAccAll                    -- inertial_to_jacobi_acc   (saba.c)
+  | toInertialAll                -- jacobi_to_inertial_posvel (saba.c synchronize)
   | sabaFold                     -- particles[i].a := dt*dt * p_jh[i].a          (saba.c:140-145)
   | sabaLazyKick (τ : Coef)      -- p_jh[i].v += τ*12*(p_jh[i].a - p_temp[i].a); pos reset (saba.c:180-190)
   deriving DecidableEq, Repr, Inhabited
@@ -270,6 +272,10 @@ structure SabaConfig where
   type : Nat
   safe : Bool
   keep : Bool
+  /-- source variant of `reb_integrator_saba_synchronize`: is the keep_unsynchronized copy of
+      `p_jh` taken inside the `is_synchronized == 0` test (repaired, fix 588d1fa) or before it
+      (as found: NULL dereference before the first step, finding F19)?  Detected by rv/c09.py. -/
+  copyInside : Bool := false
   deriving DecidableEq, Repr, Inhabited
 
 def sabaTypeOk (t : Nat) : Bool :=
@@ -291,12 +297,12 @@ def sabaCorrOps (t : Nat) (mult : Int) : List Prim :=
           .sabaLazyKick (.sabaCC row mult)]
   | _ => []
 
-/-- `reb_integrator_saba_synchronize` (no init call; the copy of `p_jh` is taken even when
-    already synchronised) -/
+/-- `reb_integrator_saba_synchronize` (no init call; in the source as found the copy of `p_jh`
+    is taken even when already synchronised) -/
 def sabaSyncOps (c : SabaConfig) (f : Flags) : List Prim × Flags :=
   let row := c.type % 0x100
   let pre := if c.keep then [Prim.savePJ] else []
-  if f.isSync then (pre, f) else
+  if f.isSync then (if c.copyInside then [] else pre, f) else
   let body := (if c.type ≥ 0x100 then sabaCorrOps c.type 1
                else [.kepler (.sabaC row 0 1), .com (.sabaC row 0 1)]) ++ [.toInertialAll]
   (pre ++ body ++ (if c.keep then [Prim.restorePJ] else []),
@@ -475,7 +481,7 @@ def sabaApiOps {X} (c : SabaConfig) (f : Flags) (o : Op X) : Except String (List
   match o with
   | .synchronize =>
     -- saba.c:276-279 copies `p_jh` before looking at `is_synchronized`: NULL before the first step
-    if c.keep && !f.allocated then .error "crash: saba synchronize copies p_jh == NULL (F19)"
+    if c.keep && !c.copyInside && !f.allocated then .error "crash: saba synchronize copies p_jh == NULL (F19)"
     else .ok (sabaOpOps c f o)
   | _ => .ok (sabaOpOps c f o)
 
